@@ -207,6 +207,28 @@ func VfC08Announce() {
 			vf.Assert(x == origin, "router-info-stored-for-other-router")
 		}
 	}
+	// ---- a stored record / session for a router first seen in a hop record exists only if its key hashed to its address ----
+	for _, a := range vfAttached {
+		if a.Router.IP == known || a.Router.IP == origin || a.Router.IP == own {
+			continue
+		}
+		if inst.st.VfHasRouter(a.Router.IP) || inst.st.VfPeerSession(a.Router.IP) != nil {
+			ip16 := a.Router.IP.As16()
+			okd := false
+			for _, d := range m.VfDigests() {
+				same := true
+				for i := 0; i < 16; i++ {
+					if d[i] != ip16[i] {
+						same = false
+					}
+				}
+				if same {
+					okd = true
+				}
+			}
+			vf.Assert(okd, "hop-router-stored-without-verified-address")
+		}
+	}
 	// ---- forwarding: filter and content ----
 	vf.Assert(len(recv.Sent)+len(recv.Prio) == 0, "forwarded-back-to-receiving-link")
 	if sent > 0 {
